@@ -194,6 +194,6 @@ fn level_mix(a: &MapSet, b: &MapSet) -> usize {
 
 pub fn run(ctx: &mut Ctx) {
 	ctx.rule = "pairs of two-namespace sets (s,a),(s,b) derived from a common base by independent edit scripts (independent sub-sampling at every level, comments on neither/one/both sides equal or different, parameter source names equal or different, occasionally different first namespace) compared with a reference join plus the projection law; non-trivial = one-sided and shared entries at >=2 levels; distinct by hash of the serialised case".into();
-	ctx.run_sub("merge_compatible", ctx.tier.pick(32000, 1500000), || strategy(false), check);
-	ctx.run_sub("merge_with_conflicts", ctx.tier.pick(24000, 1000000), || strategy(true), check);
+	ctx.run_sub("merge_compatible", ctx.tier.pick(128000, 1500000), || strategy(false), check);
+	ctx.run_sub("merge_with_conflicts", ctx.tier.pick(96000, 1000000), || strategy(true), check);
 }
